@@ -196,6 +196,14 @@ func (e *Exec) builtin(b *ssa.Builtin, cc *ssa.CallCommon, args []value) value {
 		return nil
 	case "print", "println":
 		return nil
+	case "ssa:wrapnilchk":
+		// the receiver check of a promoted method's wrapper
+		if p, ok := args[0].(*value); ok {
+			if p == nil {
+				panic(goPanic{"value method called using nil pointer"})
+			}
+			return p
+		}
 	case "clear":
 		if m, ok := args[0].(*omap); ok && m != nil {
 			m.e = nil
